@@ -217,6 +217,109 @@ def gen_case(rng, tier):
             "nrows": rng.randint(3, 60), "data_seed": rng.randint(0, 10 ** 6)}
 
 
+_LONG_ALPH = "abcdefghijklmnopqrstuvwxyz_0123456789"
+_LONG_UNI = ["\u00e9", "\u65e5", "\U0001f600", "\u0430", "\u03a9", "e\u0301"]
+
+
+def _long(rng, lo=60, hi=300, uni=0.0):
+    n = rng.randint(lo, hi)
+    return "".join(rng.choice(_LONG_UNI) if rng.random() < uni else rng.choice(_LONG_ALPH) for _ in range(n))
+
+
+def gen_long_names(rng, n):
+    """Names of 60..300 characters: independent ones, families that agree on their first 63/64/65 characters, unicode,
+    interaction-style ('x AND y [AND z]') and relation-style (' AND_REL ') names built from long constituents."""
+    names, seen = [], set()
+    stems = [_long(rng, 63, 63), _long(rng, 64, 64), _long(rng, 65, 65), _long(rng, 64, 64, uni=0.2)]
+    while len(names) < n:
+        k = rng.random()
+        if k < 0.25:
+            s = _long(rng, uni=0.15 if rng.random() < 0.4 else 0.0)
+        elif k < 0.55:
+            s = rng.choice(stems) + _long(rng, 0, 12)
+        elif k < 0.75 and names:
+            s = " AND ".join(rng.sample(names, min(len(names), rng.randint(2, 3))))[:300]
+        elif k < 0.95 and names:
+            s = " AND_REL ".join(rng.sample(names, min(len(names), 2)))[:300]
+        else:
+            s = _long(rng, 60, 66)
+        if s not in seen:
+            seen.add(s)
+            names.append(s)
+    return names
+
+
+def _mode(rng):
+    k = rng.random()
+    heuristic = ("max-value-coverage" if k < 0.35 else "MI-numba" if k < 0.45 else "Constant" if k < 0.6 else "MI-numba-3mr")
+    tro = "True" if rng.random() < 0.45 else "False"
+    return heuristic, tro
+
+
+def gen_long_case(rng):
+    cols = gen_long_names(rng, rng.randint(2, 14))
+    heuristic, tro = _mode(rng)
+    label = rng.choice(cols)
+    m = approx_ncands(cols, label, heuristic, tro)
+    return {"cols": cols, "label": label, "heuristic": heuristic, "tro": tro, "cap": rng.choice([m + 3, rng.randint(0, m + 5), 10 ** 6]),
+            "batches": rng.choice([1, 1, 2]), "nrows": rng.randint(3, 40), "data_seed": rng.randint(0, 10 ** 6)}
+
+
+def gen_combine_case(rng, order, rel):
+    """Frame enlarged by the REAL compute_combined_features from 33..35-character base names (interaction_order 2..3 -> 72..110
+    character names; rel=True -> ' AND_REL ' relation names for the 3mr family)."""
+    nb = rng.randint(order + 1, 5)
+    cols = [_long(rng, 33, 35) for _ in range(nb)]
+    cols.insert(rng.randint(0, nb), rng.choice(["label", _long(rng, 33, 35)]))
+    label = rng.choice(cols) if rng.random() < 0.3 else ("label" if "label" in cols else cols[0])
+    if rel:
+        heuristic, tro = "MI-numba-3mr", rng.choice(["True", "False"])
+    else:
+        heuristic, tro = _mode(rng)
+        if "3mr" in heuristic:
+            heuristic = "max-value-coverage"
+    return {"cols": cols, "label": label, "heuristic": heuristic, "tro": tro, "cap": rng.choice([10 ** 6, rng.randint(1, 60)]),
+            "batches": 1, "nrows": rng.randint(6, 30), "data_seed": rng.randint(0, 10 ** 6),
+            "combine": {"order": order, "rel": bool(rel), "cap": 10 ** 6}}
+
+
+def gen_pool_case(rng, ncpus, kind="fake"):
+    """A pool object carrying the attributes of a pathos ProcessingPool (ncpus, nodes) - or a real pathos pool - with at least
+    64*ncpus + delta selected pairs and (pairs mod ncpus) != 0, so that any per-worker partition of the pair list has a remainder."""
+    if kind == "pathos":
+        n = rng.randint(17, 20)
+        heuristic, tro = "max-value-coverage", "False"
+    else:
+        need = 64 * ncpus + rng.randint(1, 9)
+        n = 2
+        while n * (n + 1) // 2 + n - 1 < need + ncpus:
+            n += 1
+        n = min(40, n + rng.randint(0, 2))
+        heuristic = rng.choice(["max-value-coverage", "MI-numba", "MI-numba-3mr"])
+        tro = "False"
+    cols = ["f%02d%s" % (i, _simple(rng)) for i in range(n)]
+    label = rng.choice(cols)
+    m = approx_ncands(cols, label, heuristic, tro)
+    cap = m if (m % ncpus) else m - 1
+    if kind == "fake" and rng.random() < 0.5:
+        cap = 64 * ncpus + rng.randint(1, m - 64 * ncpus)
+        while cap % ncpus == 0:
+            cap -= 1
+    return {"cols": cols, "label": label, "heuristic": heuristic, "tro": tro, "cap": cap, "batches": 1,
+            "nrows": rng.randint(8, 30), "data_seed": rng.randint(0, 10 ** 6), "pool": {"kind": kind, "ncpus": ncpus}}
+
+
+def family_cases(rng, tier):
+    """Cases every run contains, whatever the seed."""
+    out = [gen_combine_case(rng, 2, False), gen_combine_case(rng, 3, False), gen_combine_case(rng, 2, True),
+           gen_combine_case(rng, 2, False)]
+    out += [gen_long_case(rng) for _ in range(24 if tier == "quick" else 150)]
+    for k in ([1, 2, 2, 3, 3, 8] if tier == "quick" else [1, 2, 3, 8] * 6):
+        out.append(gen_pool_case(rng, k))
+    out += [gen_pool_case(rng, 2, "pathos"), gen_pool_case(rng, 3, "pathos")]     # >= 4 s each: the code polls with time.sleep(4)
+    return out
+
+
 def clamp_case(rng):
     """More than 10^4 candidates in 3mr mode, so that the MAX_FEATURES_3MR clamp decides the number of rows."""
     cols = ["c%03d" % i for i in range(143)] + ["c000 AND_REL c001", "label"]
@@ -288,7 +391,7 @@ def _expr(c, r):
     parts = dict(names=vlib.strlist(names), case=_case_term(c), cands=cands, rows="[" + "; ".join(rowsets) + "]",
                  samp=("[" + "; ".join(sampled) + "]") if have_sampled else "[]",
                  caps=vlib.zlist([r["cap_after_cands"]] + caps), cap_obs=vlib.zlit(cap_obs))
-    with_sel = have_sampled and len(r["cands"]) <= SEL_LIMIT
+    with_sel = have_sampled and len(r["cands"]) <= SEL_LIMIT and not c.get("_no_sel")
     parts["sel"] = vlib.blit(with_sel)
     e = ("C06_eval %(names)s %(case)s (%(cands)s)%%nat (%(rows)s)%%nat (%(samp)s)%%nat (%(caps)s)%%Z (%(cap_obs)s)%%Z %(sel)s" % parts)
     have_sampled = with_sel
@@ -417,12 +520,20 @@ def evaluate(cases, tag="C06", use_coq=True):
     res = vlib.run_impl("impl_c06.py", {"cases": cases})["results"]
     out = [None] * len(cases)
     pre = [None] * len(cases)
+    eff = list(cases)
     exprs, meta = [], []
     for i, (c, r) in enumerate(zip(cases, res)):
         if not r["ok"]:
             out[i] = dict(ok=False, clause="the call terminates normally", obligation="impl-raises", impl=r["error"], model=None,
                           list_differs=False, sel_differs=False, ncands=None, res=r, by="impl")
             continue
+        if r.get("cols") is not None and list(r["cols"]) != list(c["cols"]):
+            c = dict(c, cols=list(r["cols"]), _no_sel=True)        # the frame actually ranked (compute_combined_features ran)
+            eff[i] = c
+            if len(set(c["cols"])) != len(c["cols"]) or c["label"] not in c["cols"]:
+                out[i] = dict(ok=True, clause=None, obligation=CHECK_OBLIGATION, impl=None, model=None, list_differs=False,
+                              sel_differs=False, ncands=None, res=r, by="skipped")
+                continue
         pre[i] = precheck(c, r)
         if use_coq and _coq_sized(c, r):
             if c.get("light"):
@@ -440,7 +551,7 @@ def evaluate(cases, tag="C06", use_coq=True):
             LAST_BROKEN.append(b)
             vals, meta = [], []
     for (i, kind, hs), v in zip(meta, vals):
-        c, r = cases[i], res[i]
+        c, r = eff[i], res[i]
         if kind == "light":
             ncands, cap2, nsel = v
             obs = (len(r["cands"]), [r["cap_after_cands"]] + [b["cap_after"] for b in r["batches"]], [b["nrows"] for b in r["batches"]])
@@ -479,7 +590,7 @@ def evaluate(cases, tag="C06", use_coq=True):
                       model=dict(n_candidates=ncm, rows_expected_per_batch=(1 if c["heuristic"] == "Constant" else 2) * nsel),
                       list_differs=not list_eq, sel_differs=(hs and not all(sel_same)), ncands=ncm, res=r, by="coq",
                       precheck_disagrees=(good and pre[i] is not None))
-    for i, (c, r) in enumerate(zip(cases, res)):
+    for i, (c, r) in enumerate(zip(eff, res)):
         if out[i] is not None:
             continue
         # no Coq verdict (too large for the checker, Coq evaluation unavailable, or use_coq=False): the Python mirror decides
@@ -609,6 +720,7 @@ def check(run, replay):
         n = 400 if run.tier == "quick" else 4000
         for _ in range(n):
             cases.append(gen_case(run.rng, run.tier))
+        cases.extend(family_cases(run.rng, run.tier))
         cases.append(clamp_case(run.rng))
         if run.tier == "thorough":
             cases.append(clamp_case(run.rng))
@@ -622,7 +734,8 @@ def check(run, replay):
     verdicts = evaluate(cases)
     coq_broken = list(LAST_BROKEN)
 
-    hist = {"ncols": {}, "heuristic": {}, "tro": {}, "batches": {}, "mode": {}, "cap_binding": 0, "cap_zero_or_neg": 0,
+    hist = {"ncols": {}, "heuristic": {}, "tro": {}, "batches": {}, "mode": {}, "pool": {}, "max_name_length": {},
+            "frames_built_by_real_compute_combined_features": 0, "cap_binding": 0, "cap_zero_or_neg": 0,
             "label_is_relation_column": 0, "frames_with_relation_columns": 0, "impl_errors": 0, "rows_total": 0}
     nlist = nsel = 0
     reported = 0
@@ -636,6 +749,14 @@ def check(run, replay):
         mode = ("3mr" if "3mr" in c["heuristic"] else "plain") + ("/target-only" if c["tro"] == "True" else "/pairwise") + \
                ("/Constant" if c["heuristic"] == "Constant" else "")
         hist["mode"][mode] = hist["mode"].get(mode, 0) + 1
+        pk = "%s/%s" % (c["pool"]["kind"], c["pool"]["ncpus"]) if c.get("pool") else "fake/no-attributes"
+        hist["pool"][pk] = hist["pool"].get(pk, 0) + 1
+        ecols = (o["res"] or {}).get("cols") or c["cols"]
+        ml = max(len(x) for x in ecols)
+        lb = "<=16" if ml <= 16 else "17-63" if ml < 64 else "64-65" if ml <= 65 else "66-128" if ml <= 128 else ">128"
+        hist["max_name_length"][lb] = hist["max_name_length"].get(lb, 0) + 1
+        if c.get("combine"):
+            hist["frames_built_by_real_compute_combined_features"] += 1
         if o["ncands"] is not None and 0 < c["cap"] < o["ncands"]:
             hist["cap_binding"] += 1
         if c["cap"] <= 0:
@@ -676,7 +797,7 @@ def check(run, replay):
         run.cov["exhaustive_small_scope"] = ("all ordered column lists of 1..3 names over {a, b, ' AND_REL ', 'a AND_REL b'} x label "
                                              "x {max-value-coverage, MI-numba-3mr, Constant} x {True, False} x caps 0..|cands|+1")
     run.samples = [{k_: c[k_] for k_ in ("cols", "label", "heuristic", "tro", "cap", "batches", "nrows", "data_seed")}
-                   for c in cases[:3]]
+                   for c in cases[10:13]]
     run.assumptions += [
         "column lists are duplicate-free and contain the label (pandas frames with duplicated names are outside the property)",
         "args.reference_model_JSON == '' (is_prior_heuristic false): the reference-model filter between enumeration and cap is not modelled",
